@@ -1768,4 +1768,8 @@ def exCfg : Cfg :=
 def seqCfg : Cfg :=
   { capIn := 2, capOut := 1, capErr := 1, wchunk := 5, rchunk := 5, blocking := false, pidfd := false, plan := .seq }
 
+/-- the polling driver with 1-byte pipes, a 1-byte `cat`, 4 bytes in one `write`, everything concurrent -/
+def f200Cfg : Cfg :=
+  { capIn := 1, capOut := 1, capErr := 1, wchunk := 4, rchunk := 4, blocking := true, pidfd := false, plan := .conc }
+
 end Compio.ChildIo
